@@ -478,6 +478,13 @@ func RunCrashScenario(sc *Scenario) (vd *Verdict) {
 				fail(v, i)
 				return
 			}
+		case "fullsyncStart":
+			// a full sync is started on a dataset and left open (a job or client that is still at it, or has given up)
+			mgmt = true
+			if ds := r.H.Dataset(op.DS); ds != nil {
+				werr = ds.StartFullSync()
+				r.Stats["full_syncs_left_open"]++
+			}
 		case "takeover":
 			mgmt = true
 			if v := r.takeoverBackupLocation(); v != nil {
